@@ -147,9 +147,8 @@ func (m *MoovBox) RemovePsshs() []*PsshBox {
 
 func (m *MoovBox) GetSinf(trackID uint32) *SinfBox {
 	for _, trak := range m.Traks {
-		if trak.Tkhd.TrackID == trackID {
-			stsd := trak.Mdia.Minf.Stbl.Stsd
-			sd := stsd.Children[0] // Get first (and only)
+		if trak.Tkhd != nil && trak.Tkhd.TrackID == trackID {
+			sd := trak.firstSampleEntry()
 			switch box := sd.(type) {
 			case *VisualSampleEntryBox:
 				return box.Sinf
@@ -164,9 +163,8 @@ func (m *MoovBox) GetSinf(trackID uint32) *SinfBox {
 // IsEncrypted returns true if SampleEntryBox is "encv" or "enca"
 func (m *MoovBox) IsEncrypted(trackID uint32) bool {
 	for _, trak := range m.Traks {
-		if trak.Tkhd.TrackID == trackID {
-			stsd := trak.Mdia.Minf.Stbl.Stsd
-			sd := stsd.Children[0] // Get first (and only)
+		if trak.Tkhd != nil && trak.Tkhd.TrackID == trackID {
+			sd := trak.firstSampleEntry()
 			switch box := sd.(type) {
 			case *VisualSampleEntryBox:
 				return box.Type() == "encv"
@@ -177,4 +175,17 @@ func (m *MoovBox) IsEncrypted(trackID uint32) bool {
 	}
 	return false
 
+}
+
+// firstSampleEntry returns the first (and normally only) child of stsd, or nil if the track lacks
+// any of the boxes down to it.
+func (t *TrakBox) firstSampleEntry() Box {
+	if t.Mdia == nil || t.Mdia.Minf == nil || t.Mdia.Minf.Stbl == nil || t.Mdia.Minf.Stbl.Stsd == nil {
+		return nil
+	}
+	stsd := t.Mdia.Minf.Stbl.Stsd
+	if len(stsd.Children) == 0 {
+		return nil
+	}
+	return stsd.Children[0]
 }
